@@ -120,6 +120,15 @@ def enumerate_cases(tier, shard=0, nshards=1):
                         tree = _build(shape, lv, ops)
                         yield {'tree': tree, 'text': '=' + R.render(tree),
                                'cells': cells}
+                    if n == 3 and leaves[0][0] == 'ref' and not npow:
+                        # the postfix percent operator on each reference
+                        for pp in range(n):
+                            lv = list(leaves)
+                            lv[pp] = ['pctref', lv[pp][1]]
+                            tree = _build(shape, lv, ops)
+                            yield {'tree': tree,
+                                   'text': '=' + R.render(tree),
+                                   'cells': cells}
 
 
 # ------------------------------------------------------------------- sampling
@@ -140,7 +149,9 @@ POOL = [2, 3, 5, 7, 11, 13, 17, 19, 23, 29, 31, 37, 41, 43, 47, 53]
 def _leaf(d):
     k = d.pick(8)
     if k < 3:
-        return ['ref', d.choice(REFS)]
+        # (every fifth reference carries the postfix percent operator)
+        return [d.choice(['ref', 'ref', 'ref', 'ref', 'pctref']),
+                d.choice(REFS)]
     if k < 5:
         return ['num', d.choice(LITS[0])]
     return ['num', d.choice(LITS[k - 4])] if k < 8 else None
@@ -217,7 +228,7 @@ def _tame_powers(tree):
             return [k, leaves(t[1])]
         v = (2, 3)[idx[0] % 2]
         idx[0] += 1
-        if k == 'ref':
+        if k in ('ref', 'pctref'):
             # distinct cell per occurrence index parity
             name = 'A1' if v == 2 else 'B1'
             cells['Sheet1!' + name] = v
@@ -315,15 +326,16 @@ def _g_leaf(t, cells):
     if t[0] == 'num':
         return xl.Number(R.literal_value(t[1]))
     v = cells.get('Sheet1!' + t[1])
-    if v is None:
-        return xl.BLANK
-    return xl.Number(v)
+    g = xl.BLANK if v is None else xl.Number(v)
+    if t[0] == 'pctref':
+        return _g_apply('OP_PERCENT', g)
+    return g
 
 
 def _fold(tree, cells, env, diverge):
     """Parallel fold: returns (S native value, G library value or exc tag)."""
     k = tree[0]
-    if k in ('num', 'ref'):
+    if k in ('num', 'ref', 'pctref'):
         s = R.evaluate(tree, env)
         return s, _g_leaf(tree, cells)
     if k == 'par':
@@ -406,6 +418,8 @@ def _features(case):
     def walk(t):
         if t[0] == 'num':
             lits.append(t[1])
+        elif t[0] == 'pctref':
+            lits.append('%')
         elif t[0] == 'op':
             walk(t[2]), walk(t[3])
         elif t[0] in ('neg', 'par'):
